@@ -429,7 +429,10 @@ def dec_c40_automaton(f, rule, base, shift3):
                 env = {chname: v, shift_name: sh, upper_name: up, ps[2]: base, ps[3]: shift3, ps[1]: "OUT", ps[0]: "DATA"}
                 fo = T.Folder(f, env=env, on_call=_push_hook(sink), effects=True)
                 try:
-                    fo.fold(body)
+                    try:
+                        fo.fold(body)
+                    except T.ContinueEx:
+                        pass            # `continue` ends the handling of this value like reaching the end of the body
                     tab[(sh, up, v)] = (tuple(sink), fo.env[shift_name], fo.env[upper_name])
                 except T.ReturnEx as rx:
                     rv = rx.value
